@@ -849,7 +849,7 @@ Definition optional (s : fspec) (x : item) : bool :=
               end
           end
       end
-  | [fk; KU u; k2] => match kind_of_flat k2 with Some _ => false | None => true end          (* child entry / property group *)
+  | [_; KU _; k2] => match kind_of_flat k2 with Some _ => false | None => true end          (* child entry / property group *)
   | [_; KU _; KPGs; _] => true
   | _ => false
   end.
@@ -887,3 +887,22 @@ Definition check_obs (fuel : nat) (s : fspec) (t0 : tree) (x : item) (oerr : opt
 Definition intact_ok (fuel : nat) (s : fspec) : bool :=
   match load fuel G (layout s) with Ok t => tree_eqb t (abs s) | Err _ => false end.
 
+
+(* the Root link describes the root group *)
+Definition described (s : fspec) (x : item) : list N :=
+  if is_root_link x then [et_uid (fs_root s)] else described_by s x.
+
+(* the guard sites the model consumes, with the guard the proofs need there *)
+Definition consumed_sites : list (string * string * gkind) :=
+  [("H5Reader.fetch_attributes", "get:<etype>", GGet); ("H5Reader.fetch_attributes", "sub:<etype>", GNone);
+   ("H5Reader.fetch_attributes", "get:<uid>", GGet); ("H5Reader.fetch_attributes", "none:entity", GHandled);
+   ("H5Reader.fetch_attributes", "in:'Type'", GIn); ("H5Reader.fetch_attributes", "in:'PropertyGroups'", GIn);
+   ("H5Reader.fetch_type_attributes", "in:'Color map'", GIn); ("H5Reader.fetch_type_attributes", "in:'Value map'", GIn);
+   ("H5Reader.fetch_value_map", "sub:'Value map'", GTry); ("H5Reader.fetch_property_groups", "sub:'PropertyGroups'", GTry);
+   ("H5Reader.fetch_children", "in:<etype>", GIn); ("H5Reader.fetch_children", "in:<uid>", GIn);
+   ("H5Reader.fetch_children", "iter:entity.items", GIter); ("H5Reader.fetch_values", "sub:'Data'#2", GTry);
+   ("H5Reader.fetch_array_attribute", "sub:<label>", GTry); ("H5Reader.fetch_metadata", "sub:<label>", GTry);
+   ("H5Reader.fetch_uuids", "sub:<etype>", GTry); ("Workspace.fetch_or_create_root", "none:root", GHandled);
+   ("Workspace.load_entity", "none:attributes", GHandled); ("Workspace.fetch_children", "none:recovered_object", GHandled)].
+Definition site_okb (c : string * string * gkind) : bool :=
+  match c with (f, st, g) => gkind_eqb (row_guard f st reader_rows) g end.
